@@ -25,7 +25,7 @@ DesignsThorough == DesignsQuick \cup {
     D(<<"fueld", "fueld">>, <<5, 4>>, 3),
     D(<<"fuel", "fuel">>, <<10, 3>>, 5),
     D(<<"control", "plenumd">>, <<4, 4>>, 3),
-    D(<<"fuel", "aclp", "plenum">>, <<5, 3, 3>>, 3) }
+    D(<<"fuel", "aclp">>, <<5, 3>>, 3) }
 DesignsEmit == {
     D(<<"fuel", "plenum">>, <<5, 4>>, 3),
     D(<<"fuelb", "bigfuel">>, <<5, 5>>, 2) }
